@@ -47,6 +47,9 @@ Qed.
 Definition ref_burn_body (bt mr : bytes) (a : Z) (addr : bytes) : ref_burn :=
   {| rb_version := 0; rb_token := keccak256 (to_lower bt); rb_recipient := mr; rb_amount := Z.to_N a; rb_sender := copy12 addr |}.
 
+Lemma abs_to_N z : (0 < z)%Z -> Z.abs_N z = Z.to_N z.
+Proof. destruct z; intros H; try reflexivity; discriminate H. Qed.
+
 (* Deposits: MessageSent carries sender = the module, recipient = the token messenger registered for the
    destination, caller = the requested one (all-zero for the plain variant), body = the version-0 burn
    message with burn token keccak256(lower-cased denom), the requested mint recipient, the deposited
@@ -71,7 +74,8 @@ Proof.
   destruct_deposit F. cbn [start h_st h_lg h_ev h_dc] in *. destruct Dsent.
   exists daddr, damt, dtm, dmaddr, dbody, dbz. rewrite Hev, Dev, <- msg_of_layout. cbn [app].
   assert (ref_encode_burn (ref_burn_body bt mr damt daddr) = Some dbody) as RB.
-  { rewrite <- Denc, encode_burn_layout. unfold to_ref_burn, ref_burn_body, burn_body. cbn. f_equal. f_equal. lia. }
+  { rewrite <- Denc, encode_burn_layout. unfold to_ref_burn, ref_burn_body, burn_body.
+    cbn [bm_version bm_token bm_recipient bm_amount bm_sender]. do 2 f_equal. symmetry. apply abs_to_N. exact Dpos. }
   auto 12.
 Qed.
 
